@@ -330,3 +330,26 @@ for _tag, _h, _v, _clause in (("abbreviation", " Abbreviation ", " age ", "code_
         ensures=[("C16.the_value_goes_to_the_field_its_heading_names_and_nowhere_else", _clause)], defined_props=["C16", "C18"])
 CONTRACTS["excel:TimeDependentConnections.from_tables#definition_code_name_missing"] = dict(
     schema=schema, fragment={"iter": "zip(tables[0][0], tables[0][1])"}, make_env=_env_tdc_def("Abbreviation", None), call_stubs=_rd_stubs, raises={"Exception": "True"}, raises_props=["C18"], ensures=[], defined_props=["C16", "C18"])
+
+
+# ---- the population lists of a transfer / interaction table as read (the two loops over the first row and first column of the Y/N matrix in from_tables): names are collected
+# until the first blank cell (or, along the top, an `#ignore` cell), which ends the list
+def _env_popcell(value, name, lst):
+    def make(it):
+        from pyvc.interp import PyObjV
+        from pyvc import source
+
+        c = PyObjV("Cell", source.load("excel"), {"value": value, "data_type": ("s" if isinstance(value, str) else "n")})
+        return {name: ([c] if name == "row" else c), lst: ["first"]}
+
+    return make
+
+
+for _tag, _v, _clause in (("a_name", "adults", "to_pops == ['first', 'adults'] and LOOP_EXIT == 'end'"), ("a_blank_cell", None, "to_pops == ['first'] and LOOP_EXIT == 'break'"), ("an_ignored_cell", "#ignore notes", "to_pops == ['first'] and LOOP_EXIT == 'break'")):
+    CONTRACTS["excel:TimeDependentConnections.from_tables#to_population_%s" % _tag] = dict(
+        schema=schema, fragment={"iter": "tables[1][0][1:]"}, make_env=_env_popcell(_v, "cell", "to_pops"),
+        ensures=[("C16.names_are_collected_until_the_first_blank_or_ignored_cell", _clause)], defined_props=["C16"])
+for _tag, _v, _clause in (("a_name", "adults", "from_pops == ['first', 'adults'] and LOOP_EXIT == 'end'"), ("a_blank_cell", None, "from_pops == ['first'] and LOOP_EXIT == 'break'")):
+    CONTRACTS["excel:TimeDependentConnections.from_tables#from_population_%s" % _tag] = dict(
+        schema=schema, fragment={"iter": "tables[1][1:]"}, make_env=_env_popcell(_v, "row", "from_pops"),
+        ensures=[("C16.names_are_collected_until_the_first_blank_cell", _clause)], defined_props=["C16"])
